@@ -8,7 +8,7 @@ from __future__ import annotations
 from symx.core import at_most, Infeasible
 
 Z = {"H": 1, "He": 2, "Li": 3, "Be": 4, "B": 5, "C": 6, "N": 7, "O": 8, "F": 9, "Na": 11, "Si": 14, "P": 15,
-     "S": 16, "Cl": 17, "D": 1, "T": 1, "Co": 27, "Br": 35, "Cs": 55, "Cn": 112, "I": 53}
+     "S": 16, "Cl": 17, "D": 1, "T": 1, "Co": 27, "Br": 35, "Cs": 55, "Cn": 112, "I": 53, "Se": 34, "Te": 52}
 
 
 class Mol:
